@@ -87,7 +87,7 @@ class CertFam(Family):
         def mutated_qc():
             k = rng.randrange(1, nb + 1)
             b, bv = views[k - 1]
-            kind = rng.choice(["dup", "sub", "unknown", "foreign", "relabel-view", "relabel-hash", "swap", "nil", "empty",
+            kind = rng.choice(["dup", "dup-apart", "sub", "unknown", "foreign", "relabel-view", "relabel-hash", "swap", "nil", "empty",
                                "junk", "mixed", "honest", "honest", "unstored", "overq", "zero-id", "wrongscheme-free"])
             ids = list(range(1, n + 1))
             rng.shuffle(ids)
@@ -98,6 +98,11 @@ class CertFam(Family):
                 i = ids[0]
                 m = rng.randrange(1, q + 1)
                 pairs = [(i, f"s{k}_{i}")] * m + pairs[:max(0, q - m)]
+            elif kind == "dup-apart" and len(pairs) >= 2:
+                # a repeated signer that is NOT next to its first occurrence (sub-quorum of distinct signers)
+                pairs = pairs[:max(1, q - 1)] + [pairs[0]]
+                if len(pairs) >= 3 and rng.random() < 0.5:
+                    pairs[1], pairs[-2] = pairs[-2], pairs[1]
             elif kind == "sub":
                 pairs = pairs[:max(0, q - 1)]
             elif kind == "unknown":
@@ -152,13 +157,15 @@ class CertFam(Family):
                 ids = list(range(1, n + 1))
                 rng.shuffle(ids)
                 nm = fresh("t")
-                kind = rng.choice(["honest", "honest", "dup", "sub", "foreign", "relabel", "nil", "junk"])
+                kind = rng.choice(["honest", "honest", "dup", "dup-apart", "sub", "foreign", "relabel", "nil", "junk"])
                 for i in ids:
                     L.append(f"sign {i} view:{tv} {nm}v{i}")
                 pairs = [(i, f"{nm}v{i}") for i in ids[:q]]
                 view = tv
                 if kind == "dup":
                     pairs = [pairs[0]] * len(pairs)
+                elif kind == "dup-apart" and len(pairs) >= 2:
+                    pairs = pairs[:max(1, q - 1)] + [pairs[0]]
                 elif kind == "sub":
                     pairs = pairs[:q - 1]
                 elif kind == "foreign":
@@ -182,7 +189,8 @@ class CertFam(Family):
                 nm = fresh("a")
                 pool = honest_qcs + (made_qcs[-3:] if rng.random() < 0.5 else [])
                 att = {i: rng.choice(pool) for i in ids}
-                kind = rng.choice(["honest", "honest", "honest", "dup", "sub", "swap-msg", "relabel-view", "wrong-qc", "nil", "via-create"])
+                kind = rng.choice(["honest", "honest", "honest", "dup", "dup-apart", "sub", "swap-msg", "relabel-view", "wrong-qc", "nil", "via-create",
+                                   "count-mismatch", "count-mismatch"])
                 for i in ids:
                     L.append(f"sign {i} tmo:{i}:{av}:{att[i]} {nm}m{i}")
                 use = ids[:q]
@@ -191,6 +199,9 @@ class CertFam(Family):
                 view = av
                 if kind == "dup" and len(pairs) > 1:
                     pairs = [pairs[0]] * len(pairs)
+                elif kind == "dup-apart" and len(pairs) > 1:
+                    pairs = pairs[:max(1, q - 1)] + [pairs[0]]
+                    qcs = {i: att[i] for i, _ in pairs}
                 elif kind == "sub":
                     pairs = pairs[:q - 1]
                     qcs = {i: att[i] for i, _ in pairs}
@@ -214,6 +225,21 @@ class CertFam(Family):
                     L.append(f"agg {nm} sig=nil view={view} qcs=" + (",".join(f"{i}:{qcs[i]}" for i in qcs) or "-"))
                     L.append(f"verify-any {R()} B1 {nm}")
                     continue
+                elif kind == "count-mismatch" and len(pairs) >= 2:
+                    # the signature claims a quorum of participants, the QC map (= the batch of messages)
+                    # has fewer entries, or the other way round
+                    kk = rng.randrange(1, len(pairs))
+                    if scheme == "bls12" and rng.random() < 0.6:
+                        # few points, quorum-sized bit-field, few messages
+                        L.append(f"bls {nm}s pt={'+'.join(s_ for _, s_ in pairs[:kk])} bits={','.join(str(i) for i, _ in pairs)}")
+                        qcs = {i: att[i] for i, _ in pairs[:kk]}
+                    elif rng.random() < 0.5:
+                        self._sigset(L, scheme, nm + "s", pairs)
+                        qcs = {i: att[i] for i, _ in pairs[:kk]}
+                    else:
+                        self._sigset(L, scheme, nm + "s", pairs[:kk])
+                        qcs = {i: att[i] for i, _ in pairs}
+                    L.append(f"agg {nm} sig={nm}s view={view} qcs=" + (",".join(f"{i}:{qcs[i]}" for i in qcs) or "-"))
                 else:
                     self._sigset(L, scheme, nm + "s", pairs)
                     L.append(f"agg {nm} sig={nm}s view={view} qcs=" + (",".join(f"{i}:{qcs[i]}" for i in qcs) or "-"))
